@@ -72,9 +72,9 @@ impl GenCfg {
     }
 }
 
-pub const FAMILIES: [&str; 17] = [
+pub const FAMILIES: [&str; 18] = [
     "accum", "munch", "lang", "rulesets", "rctx", "eoi", "loc", "actions", "recover", "progress", "realistic",
-    "class", "prec", "bigclass", "mixed", "eoictx", "mixedx",
+    "class", "prec", "bigclass", "mixed", "eoictx", "mixedx", "eoiseq",
 ];
 
 pub fn family_cfg(family: &str, rng: &mut Rng) -> GenCfg {
@@ -109,6 +109,9 @@ pub fn family_cfg(family: &str, rng: &mut Rng) -> GenCfg {
             c.w_act = [1, 2, 8, 2];
             c.p_err = 10;
             c.shuffle_sets = true;
+            // `$` tails in any of the 2-7 rule sets: the `$` edges of a rule set's automaton are
+            // renumbered like all others when the automata are concatenated
+            c.p_eoi_rule = 15;
         }
         "rctx" => {
             c.cover_ctx = true;
@@ -619,8 +622,78 @@ fn fam_hash(family: &str) -> u64 {
 }
 
 /// Deterministic spec for (family, seed, index).
+/// Systematic (seed-independent) definitions for the renumbering of `$` edges when the automata of
+/// several rule sets are concatenated: Init switches on 'x' / 'y' / 'z' into rule sets A, B, C; each
+/// of them is one of a few tiny shapes, some ending in `$` after 0-3 characters, some plain
+/// literals (accepting leaves right behind the entry state). Every ordered triple of the twelve shapes.
+fn gen_eoiseq_spec(index: usize) -> Spec {
+    let sw = |c: char, to: &str, reset: bool| Rule {
+        id: 0,
+        re: Re::Chr(c),
+        ctx: None,
+        act: Action::Do(vec![(
+            Guard::Always,
+            Outcome {
+                reset,
+                switch: Some(to.to_string()),
+                fin: Fin::Continue,
+            },
+        )]),
+    };
+    let back = |v: u32| {
+        Action::Do(vec![(
+            Guard::Always,
+            Outcome {
+                reset: false,
+                switch: Some("Init".to_string()),
+                fin: Fin::Return(v),
+            },
+        )])
+    };
+    // shapes of a non-Init rule set (regexes of its rules, in order)
+    let shapes: Vec<Vec<Re>> = vec![
+        vec![Re::cat(Re::Chr('a'), Re::Eoi)],
+        vec![Re::cat(Re::str("ab"), Re::Eoi)],
+        vec![Re::cat(Re::str("abc"), Re::Eoi)],
+        vec![Re::cat(Re::star(Re::Chr('a')), Re::alt(Re::Chr('\n'), Re::Eoi))],
+        vec![Re::cat(Re::plus(Re::Chr('a')), Re::opt(Re::Eoi)), Re::Chr('b')],
+        vec![Re::Chr('c')],
+        vec![Re::str("cd"), Re::Chr('a')],
+        vec![Re::plus(Re::Chr('c')), Re::cat(Re::Chr('a'), Re::cat(Re::Chr('b'), Re::Eoi))],
+        vec![Re::Eoi, Re::Chr('a')],
+        // the `$` target is also reachable through a character, from a state that is not the entry
+        vec![Re::cat(Re::Chr('b'), Re::cat(Re::star(Re::Chr('a')), Re::alt(Re::Chr('\n'), Re::Eoi)))],
+        vec![Re::cat(Re::str("ab"), Re::alt(Re::Chr('\n'), Re::Eoi)), Re::Chr('c')],
+        vec![Re::Chr('c'), Re::Any],
+    ];
+    let n = shapes.len();
+    let (i, j, k) = (index % n, (index / n) % n, (index / (n * n)) % n);
+    let reset = (index / (n * n * n)) % 2 == 0;
+    let mut sets = vec![RuleSet {
+        pre_lets: vec![],
+        name: "Init".to_string(),
+        entries: vec![
+            Entry::Rule(sw('x', "A", reset)),
+            Entry::Rule(sw('y', "B", reset)),
+            Entry::Rule(sw('z', "C", reset)),
+            Entry::Rule(Rule { id: 0, re: Re::Chr(' '), ctx: None, act: Action::Skip }),
+        ],
+    }];
+    for (name, sh) in [("A", i), ("B", j), ("C", k)] {
+        let mut entries = vec![];
+        for (q, re) in shapes[sh].iter().enumerate() {
+            entries.push(Entry::Rule(Rule { id: 0, re: re.clone(), ctx: None, act: back(q as u32) }));
+        }
+        sets.push(RuleSet { pre_lets: vec![], name: name.to_string(), entries });
+    }
+    let mut spec = Spec { error_type: false, named: true, lets: vec![], sets };
+    spec.renumber();
+    spec
+}
+
 pub fn gen_family_spec(family: &str, seed: u64, index: usize) -> Spec {
     match family {
+        "eoiseq" => gen_eoiseq_spec(index),
         "class" => {
             let mut rng = Rng::derive(seed, &[fam_hash(family), (index / 3) as u64]);
             let cfg = family_cfg(family, &mut rng);
